@@ -27,6 +27,9 @@ import (
 // root's write lock.
 const classD6 = "race-leaf-update-vs-delete"
 
+// classD6Alias is the same class spelled as the generic frame pair.
+const classD6Alias = "race:ctree.(*Leaf).Update|ctree.(*Tree).internalDelete"
+
 // SOp is one operation of a worker's program.
 type SOp struct {
 	Kind string   `json:"kind"` // add glv getleaf hval hupd query walk del delcond walkdel
